@@ -261,6 +261,49 @@ func partA(r *rep.Run, thorough bool) {
 			}
 		}
 		r.Count("histories/"+p, int64(n))
+		ringSweep(r, p, 400)
+	}
+}
+
+// ringSweep: many selections in a row on one registry, for xids spread over the whole hash ring (a selection whose key
+// falls behind the last ring position wraps around). Each selection runs on a goroutine of its own; if the process goes
+// quiet before it returns, the selection is blocked for good.
+func ringSweep(r *rep.Run, policy string, nx int) {
+	quiet.Spin(nil, 2)
+	sgetty.VerifResetRemoting()
+	loadbalance.VerifReset()
+	config.GetSeataConfig().LoadBalanceType = policy
+	vtime.SetVirtual(nil)
+	vtime.AutoTick = true
+	defer func() { vtime.AutoTick = false; vtime.SetPassThrough() }()
+	open := []*sess{{id: 0, addr: addrs[0]}, {id: 1, addr: addrs[1]}}
+	for _, s := range open {
+		sgetty.VerifRegisterSession(s)
+	}
+	for i := 0; i < nx; i++ {
+		x := fmt.Sprintf("10.0.0.%d:8091:%d", 5+i%2, 9000+i*7919)
+		msg := message.RpcMessage{ID: 1, Type: message.GettyRequestTypeRequestSync, Codec: byte(codec.CodecTypeSeata), Body: body(x)}
+		done := make(chan getty.Session, 1)
+		go func() { done <- sgetty.VerifSelectSession(msg) }()
+		quiet.Spin(func() bool { return len(done) > 0 }, 3)
+		r.Eval(true)
+		r.Count("ring_sweep_selections/"+policy, 1)
+		h := History{"o0", "o1", fmt.Sprintf("sweep:%d selections, last xid %s", i+1, x)}
+		select {
+		case got := <-done:
+			gs, ok := got.(*sess)
+			if got == nil || !ok || gs.IsClosed() {
+				r.Violate("nil-although-open/"+policy, clauseA, Located{policy, h}, fmt.Sprintf("selection %d (xid %s) with two open sessions returned %v", i+1, x, got))
+				return
+			}
+			if policy == "XID" && gs.addr != fmt.Sprintf("10.0.0.%d:8091", 5+i%2) {
+				r.Violate("xid-affinity/"+policy, clauseA, Located{policy, h}, fmt.Sprintf("selection %d: xid %s went to %s", i+1, x, gs.addr))
+				return
+			}
+		default:
+			r.Violate("selection-blocks/"+policy, clauseA, Located{policy, h}, fmt.Sprintf("selection %d (xid %s) never returned: every goroutine of the process is blocked (two open sessions are registered)", i+1, x))
+			return
+		}
 	}
 }
 
